@@ -474,6 +474,14 @@ def _observe_schema(case, S, T, orjson):
         except Exception:
             pass
         obs["parse"] += _parse_entries(T, base, vals) + _parse_entries(T, base, [c.default], flat=True)
+        # ... and for the parameters the restoring constructor calls will use (they differ from the column's own
+        # only where a finding makes them differ, e.g. F-C16-8)
+        for form in (lambda: S.RelationSchema(name="x", columns=[c]).to_dict()["columns"][0], lambda: orjson.loads(c.to_json())):
+            try:
+                d = form()
+                obs["parse"] += _parse_entries(T, _base(S.FlatColumn, d, {}), [d.get("default")])
+            except Exception:
+                pass
         for f in dataclasses.fields(S.FlatColumn):
             v = getattr(c, f.name)
             for leaf in (v if type(v) is list else [v]):
